@@ -155,12 +155,14 @@ theorem C17_parse_authenticate (p1 : UInt8) (chal app handle le : Bytes) (hc : c
   have t3 : ((chal ++ app ++ [UInt8.ofNat handle.length] ++ handle).drop 65).take handle.length = handle := by
     have : (chal ++ app ++ [UInt8.ofNat handle.length]).length = 65 := by simp [hc, ha]
     rw [← this, List.drop_left]; simp
-  show parseAuthPayload _ p1 = _
+  have hp1 : (!(p1 == 0x07 || p1 == 0x03 || p1 == 0x08)) = false := by rcases hp with rfl | rfl | rfl <;> rfl
+  show (if (!(p1 == 0x07 || p1 == 0x03 || p1 == 0x08)) = true then Parsed.err swWrongData else parseAuthPayload _ p1) = _
+  rw [hp1]
+  simp only [Bool.false_eq_true, if_false]
   unfold parseAuthPayload
   rw [g64, hl, hd, t1, t2]
   have b1 : ¬ (65 + handle.length < 65) := by omega
   have b2 : ¬ (65 + handle.length - 65 < handle.length) := by omega
   simp only [b1, b2, if_false, t3]
-  rcases hp with rfl | rfl | rfl <;> rfl
 
 end PasskeyVerif.C17
